@@ -1450,10 +1450,10 @@ const char* rtosc_skip_next_printed_arg(const char* src, int* skipped,
                 {
                     const char* next_ellipsis_from_llhssrc =
                             strstr(llhssrc, "...");
-                    if(*llhssrc == '[')
+                    if(*llhssrc == '[' || *llhssrc == '"')
                     {
-                        // an array is no left neighbour (and an ellipsis
-                        // inside of it does not belong to us)
+                        // an array or a string is no left neighbour (and an
+                        // ellipsis inside of it does not belong to us)
                     }
                     else if(next_ellipsis_from_llhssrc < ellipsis)
                     {
